@@ -54,6 +54,19 @@ def who_may_call(run, F, E, rule, table):
                    where=fn.pat, detail=['%s::%s' % x for x in extra] or None, key='%s::%s has an unexpected caller' % (tk, m))
 
 
+def deactivation_resets(run, F, E, rule):
+    """deactivation leaves nothing behind that the next activation would act on: R_::finalExit definitely invalidates the active slot, the
+    requested slot and the outstanding request (must-write analysis) -- otherwise a request made before exit() would redirect the next
+    enter() away from the first declared state"""
+    M = effects.MustWrites(E)
+    for fn in F.find('R_', 'finalExit'):
+        mw = M.of_function(fn)
+        need = [('core', 'registry', 'active'), ('core', 'registry', 'requested'), ('core', 'request', 'destination')]
+        missing = [p for p in need if p not in mw and (p[:2] + ('*',)) not in mw]
+        run.ob(rule, 'R_::finalExit definitely resets the active slot, the requested slot and the outstanding request [%s]' % F.label(), not missing,
+               where=fn.pat, detail=missing or None, key='R_::finalExit leaves activation state behind')
+
+
 def activation_pairing(run, F, E):
     for fn in F.find('RV_'):
         if 'ffsm2::Automatic' not in (fn.cls or ''):
@@ -130,6 +143,7 @@ def run(run):
                            key='%s writes registry.active' % fn.short)
             activation_pairing(run, F, E)
             observers(run, F, E)
+            deactivation_resets(run, F, E, 'C01.b')
             if facts.cfg_has(c, 'S'):
                 # the flow rule for load() takes the index it reads to be one a save() wrote (precondition A3). That rests on save()
                 # encoding exactly the activity state into a buffer it has cleared first: the writer/reader field tables and the
